@@ -3,7 +3,7 @@
 
    All theorems quantify over every option list: any option types, any data lengths (bytes are N, so
    0..253 is included), duplicates, any order; and over every configuration and previous peer state.
-   Variant [repaired] is what /repo HEAD (5478db8) implements for pkg/ppp, internal/pppoe and internal/l2tp,
+   Variant [repaired] is what /repo HEAD (e76425b) implements for pkg/ppp, internal/pppoe and internal/l2tp,
    no finding is open.  [defective], [lns_found], [def_restore], [def_rguard] are the behaviours before the fixes
    54fb851 / 95b0af2 / bc32486 / ce9ad2f / 8205ad2 / 7efc399 and only occur in historical _refuted witnesses.
    Since e9950ea a PPPoE session whose LCP leaves Opened after startNCP is torn down (owner [Ended]): on PPPoE a
@@ -255,7 +255,7 @@ Print Assumptions C06_ipv6cp_wire_bad.
 (* Event alphabet of a session history (sev): the subscriber's Configure-Request (any identifier, any bytes),
    its Configure-Ack / Nak / Reject for our own request carrying our last identifier (verbatim or with
    arbitrary bytes) or a stale identifier (dropped), its Terminate-Request, the restart time-out in
-   Stopping (TO-) and while negotiating (TO+, retransmission), an LCP renegotiation (EvDown: onLCPDown; PPPoE sends Down to the NCPs and ends the session,
+   Stopping (TO-), while negotiating (TO+, retransmission) and until Max-Configure is exhausted (EvExhaust), an LCP renegotiation (EvDown: onLCPDown; PPPoE sends Down to the NCPs and ends the session,
    e9950ea) and a re-authentication (PPPoE: the same as EvDown; LNS: new AAA answer, registry answers as oracle,
    startNCP again on the same session).
    Not in the alphabet: Code-Reject, Terminate-Ack, the other time-outs, Down/Close (automaton: C05).
@@ -767,6 +767,42 @@ Example C06_lcp_session_nonvacuous :
     = [Tld; Scr; Scn 9 [mkopt 5 [1;2;3;4]%N]].
 Proof. vm_compute. repeat split. Qed.
 Print Assumptions C06_lcp_session_nonvacuous.
+
+(* ---- authentication gates the NCPs ----------------------------------------------------------- *)
+
+(* A PPPoE session from "LCP Opened, authentication pending": IPCP / IPv6CP Configure-Requests (dropped by the
+   dispatcher's phase gate), the AAA verdict (reject: LCP is closed with retransmitted Terminate-Requests;
+   accept: extractIPFromAttributes + startNCP with any AAA address, DNS, registry outcome and implementation
+   choice), LCP time-outs, and then every event of the IPCP session model.  For every such history: a
+   Configure-Ack for IPCP is emitted only if an accept has occurred, the session is started, and every
+   IP-Address option in it is the usable assignment in force. *)
+Theorem C06_no_ncp_ack_before_auth :
+  forall es e id os,
+  let st := arun repaired APre es in
+  In (Sca id os) (snd (fst (astep repaired st e))) ->
+  existsb is_aok es = true /\
+  exists s, st = AStarted s /\
+    exists v, ic_assigned (s_cfg s) = Some v /\ usable (ic_assigned (s_cfg s)) = true /\
+              (forall o, In o os -> o_type o = 3%N -> o_data o = v).
+Proof. exact no_ncp_ack_before_auth. Qed.
+Print Assumptions C06_no_ncp_ack_before_auth.
+
+(* before an accept (any variant): nothing at all is sent for IPCP, whatever arrives *)
+Theorem C06_unauthenticated_silent :
+  forall fl st e, a_started st = false -> snd (fst (astep fl st e)) = [] \/ is_aok e = true.
+Proof. exact astep_not_started. Qed.
+Print Assumptions C06_unauthenticated_silent.
+
+Example C06_auth_gate_nonvacuous :
+  let pre := [ANcpReq false 1 [3;6;6;6;6;6]%N; ANcpReq true 2 [1;10;2;0;0;0;0;0;0;1]%N] in
+  snd (fst (astep repaired (arun repaired APre pre) (ANcpReq false 3 [3;6;10;0;0;5]%N))) = [] /\
+  arun repaired APre (pre ++ [AFail; ATimeout; ATimeout; ATimeout]) = AClosed /\
+  snd (astep repaired (arun repaired APre [AFail]) ATimeout) = 1%nat /\
+  snd (fst (astep repaired
+     (arun repaired APre (pre ++ [AOk (Some (v4prefix ++ [10;0;0;5])%N) (None, None) (mkorc None true) head_choice]))
+     (ANcpReq false 3 [3;6;10;0;0;5]%N))) = [Sca 3 [mkopt 3 [10;0;0;5]%N]].
+Proof. vm_compute. repeat split. Qed.
+Print Assumptions C06_auth_gate_nonvacuous.
 
 (* ---- retransmissions ----------------------------------------------------------------------- *)
 
